@@ -5,3 +5,5 @@ import OlVerif.Props.C07
 #print axioms OlVerif.C07.augAssign_order
 #print axioms OlVerif.C07.expr_order
 #print axioms OlVerif.C07.functionDef_order
+#print axioms OlVerif.C07.wrapper_order
+#print axioms OlVerif.C07.program_order
